@@ -90,6 +90,12 @@ type Replay struct {
 	TraceHash string          `json:"trace_hash"`
 	Trace     []string        `json:"trace"`
 	Sample    any             `json:"sample,omitempty"`
+	// Ambient: the violation does not reproduce from its tape every time: it depends on
+	// something the simulator cannot seed (Go map iteration order, runtime scheduling
+	// between yields). Hits/Attempts is the reproduction rate measured when it was found.
+	Ambient    bool           `json:"ambient,omitempty"`
+	Attempts   int            `json:"attempts,omitempty"`
+	Hits       int            `json:"hits,omitempty"`
 	ShrunkFrom int            `json:"shrunk_from_draws"`
 	ShrunkTo   int            `json:"shrunk_to_draws"`
 	Candidates int            `json:"shrink_candidates"`
@@ -386,10 +392,29 @@ func shrinkAndWrite(t *testing.T, engine string, f RunFunc, env *Env, seed, run 
 		out := execOnce(t, engine, f, tape.Replay(c), env)
 		return hasSig(out, v.Sig) != nil
 	}
-	// make sure the recorded tape reproduces at all
-	if !try(best) {
-		fmt.Fprintf(os.Stderr, "HARNESS: violation %s of run %d does not reproduce from its own tape\n", v.Sig, run)
-		os.Exit(2)
+	// make sure the recorded tape reproduces at all, and does so every time
+	stable := true
+	for i := 0; i < 5 && stable; i++ {
+		stable = try(best)
+	}
+	if !stable {
+		// not a pure function of the tape: measure how often it reproduces
+		attempts, hits := 1, 0
+		for attempts < 64 && time.Now().Before(deadline) {
+			attempts++
+			candidates++
+			out := execOnce(t, engine, f, tape.Replay(best), env)
+			if hasSig(out, v.Sig) != nil {
+				hits++
+			}
+		}
+		fmt.Fprintf(os.Stderr, "AMBIENT: violation %s of run %d reproduced %d/%d times from its own tape\n", v.Sig, run, hits, attempts)
+		rp := Replay{
+			Property: env.Property, Engine: engine, Seed: seed, Run: run, Tier: env.Tier,
+			Tape: best, Violation: v, Ambient: true, Attempts: attempts, Hits: hits,
+			ShrunkFrom: len(rec), ShrunkTo: len(rec), Candidates: candidates,
+		}
+		return writeReplay(rp, replayDir, env.Property, v.Sig, seed, run)
 	}
 	best = Shrink(best, try)
 	e2 := *env
@@ -398,8 +423,14 @@ func shrinkAndWrite(t *testing.T, engine string, f RunFunc, env *Env, seed, run 
 	out := execOnce(t, engine, f, tp, &e2)
 	vv := hasSig(out, v.Sig)
 	if vv == nil {
-		fmt.Fprintf(os.Stderr, "HARNESS: shrunk tape lost violation %s\n", v.Sig)
-		os.Exit(2)
+		// the violation is not a pure function of the tape after all: keep the original tape
+		fmt.Fprintf(os.Stderr, "AMBIENT: shrunk tape lost violation %s; keeping the unshrunk tape\n", v.Sig)
+		rp := Replay{
+			Property: env.Property, Engine: engine, Seed: seed, Run: run, Tier: env.Tier,
+			Tape: rec, Violation: v, Ambient: true, Attempts: candidates, Hits: 0,
+			ShrunkFrom: len(rec), ShrunkTo: len(rec), Candidates: candidates,
+		}
+		return writeReplay(rp, replayDir, env.Property, v.Sig, seed, run)
 	}
 	// normalise: the tape as consumed (padding zeros made explicit)
 	final := tp.Consumed()
@@ -408,8 +439,12 @@ func shrinkAndWrite(t *testing.T, engine string, f RunFunc, env *Env, seed, run 
 		Tape: final, Violation: *vv, TraceHash: out.TraceHash, Trace: out.Trace, Sample: out.Sample,
 		ShrunkFrom: len(rec), ShrunkTo: len(trimZeros(best)), Candidates: candidates,
 	}
+	return writeReplay(rp, replayDir, env.Property, v.Sig, seed, run)
+}
+
+func writeReplay(rp Replay, replayDir, property, sig string, seed, run uint64) string {
 	_ = os.MkdirAll(replayDir, 0o755)
-	name := fmt.Sprintf("%s-%s-%d-%d.json", env.Property, sanitize(v.Sig), seed, run)
+	name := fmt.Sprintf("%s-%s-%d-%d.json", property, sanitize(sig), seed, run)
 	path := filepath.Join(replayDir, name)
 	data, _ := json.MarshalIndent(rp, "", " ")
 	if err := os.WriteFile(path, data, 0o644); err != nil {
@@ -542,7 +577,16 @@ func replayMain(t *testing.T, engine string, f RunFunc, env *Env, path string) {
 	defer os.RemoveAll(scratchRoot())
 	out := execOnce(t, engine, f, tape.Replay(rp.Tape), env)
 	v := hasSig(out, rp.Violation.Sig)
+	attempts := 1
+	if rp.Ambient {
+		for v == nil && attempts < 64 {
+			attempts++
+			out = execOnce(t, engine, f, tape.Replay(rp.Tape), env)
+			v = hasSig(out, rp.Violation.Sig)
+		}
+	}
 	status := map[string]any{
+		"ambient": rp.Ambient, "attempts": attempts,
 		"property": rp.Property, "replay": path, "sig": rp.Violation.Sig,
 		"reproduced": v != nil, "trace_hash_equal": out.TraceHash == rp.TraceHash,
 		"trace_hash": out.TraceHash, "expected_trace_hash": rp.TraceHash,
